@@ -126,7 +126,7 @@ NARY_N_ROLES = ("thresh-n", "multi-n")
 
 
 def parse_output(text):
-    out = {"K": {}, "HB": {}, "V": {}, "M": {}, "H": {}, "C": {}, "P": {}, "S": {}}
+    out = {"K": {}, "HB": {}, "V": {}, "M": {}, "H": {}, "C": {}, "P": {}, "S": {}, "W": {}, "WV": {}}
     for line in text.splitlines():
         f = line.split(" ")
         k = f[0]
@@ -144,6 +144,10 @@ def parse_output(text):
             out["C"].setdefault(f[1], {})[int(f[2])] = tuple(f[3:6])
         elif k == "P":
             out["P"].setdefault(f[1], {})[(int(f[2]), int(f[3]))] = (f[4], f[5], f[6], f[7])
+        elif k == "W":
+            out["W"].setdefault(f[1], []).append((int(f[2]), int(f[3]), f[4], f[5], f[6], f[7]))
+        elif k == "WV":
+            out["WV"].setdefault(f[1], {})[int(f[2])] = tuple(f[3:10])
         elif k == "S":
             out["S"].setdefault(f[1], []).append((int(f[2]), int(f[3]), int(f[4]), f[5], f[6], [int(x) for x in f[7].split(",")]))
     return out
@@ -277,6 +281,56 @@ def oracle(rep, o, seed):
     return stats, flagged
 
 
+HISTORY = {"LW": "left operand had its spend-info cache filled (script_pubkey()/spend_info()) before the comparison, right operand fresh",
+           "RW": "right operand had its spend-info cache filled before the comparison, left operand fresh",
+           "BW": "both operands had their spend-info caches filled before the comparison",
+           "CB": "both operands are clones of values whose spend-info cache had been filled",
+           "CF": "left operand is a clone of a value whose spend-info cache had been filled, right operand fresh"}
+WARM = {"LW": (True, False), "RW": (False, True), "BW": (True, True), "CB": (True, True), "CF": (True, False)}
+
+
+def history_oracle(rep, o, seed, stats):
+    """==, cmp, Hash of descriptors must not depend on the cache history and must agree with the structural oracle."""
+    n = 0
+    for dom, rows in sorted(o["W"].items()):
+        vals, pairs = o["V"][dom], o["P"].get(dom, {})
+        for (i, j, state, eq, cmp_, hs) in rows:
+            n += 1
+            same = (i == j)
+            base = pairs.get((i, j))
+            obs = {"history": {"state": state, "meaning": HISTORY[state],
+                               "how": "each operand is a separate instance re-parsed from the string form; warmed = script_pubkey() (and spend_info() for tr) called on it first"},
+                   "observed": {"eq": eq, "cmp": cmp_, "siphash_equal": hs},
+                   "observed_without_history": None if base is None else {"eq": base[0], "cmp": base[1], "siphash_equal": base[2]},
+                   "values": {str(i): vals[i][1], str(j): vals[j][1]}, "property": PID, "seed": seed, "domain": dom}
+            bad = []
+            if eq == "P" or cmp_ == "P":
+                bad.append(("history-panic", "`==`/`cmp` panics"))
+            if eq in "01" and (eq == "1") != same:
+                bad.append(("history-eq", "`a == b` is %s although the values are structurally %s" % (eq == "1", "identical" if same else "different")))
+            if cmp_ in "LEG" and (cmp_ == "E") != same:
+                bad.append(("history-cmp", "`a.cmp(b)` is %s although the values are structurally %s" % (cmp_, "identical" if same else "different")))
+            if same and hs != "1":
+                bad.append(("history-hash", "structurally identical values hash differently"))
+            if eq == "1" and hs != "1":
+                bad.append(("history-hash-eq-contract", "`a == b` but the hashes differ"))
+            if base is not None and (eq, cmp_, hs) != (base[0], base[1], base[2]):
+                bad.append(("history-dependence", "the answers differ from those on fresh values (==,cmp,hash-equal) = %s vs %s" % ((eq, cmp_, hs), base[:3])))
+            for key, what in bad[:1]:
+                stats["by_key"][key] = stats["by_key"].get(key, 0) + 1
+                rep.violation(key, "%s under the history: %s [%s] %s | %s" % (what, HISTORY[state], dom, vals[i][1], vals[j][1]), obs, True)
+        for i, f in sorted(o["WV"].get(dom, {}).items()):
+            n += 1
+            if f != ("1", "E", "1", "1", "1", "1", "1"):
+                stats["by_key"]["history-self"] = stats["by_key"].get("history-self", 0) + 1
+                rep.violation("history-self", "a warmed value / a clone of it is not equal (==, cmp, hash, dump) to a fresh parse of the same string: %s [%s] %s" %
+                              (f, dom, vals[i][1]),
+                              {"property": PID, "seed": seed, "domain": dom, "values": {str(i): vals[i][1]},
+                               "history": "warm==fresh, cmp(warm,fresh), hash same, clone(warm)==fresh, clone(warm)==warm, dump(clone(warm)) same, hash(clone(warm)) same",
+                               "observed": list(f)}, True)
+    stats["history_cases"] = n
+
+
 def desc_term(dump, hbname):
     """Gallina term (type `desc` of TranslateModel.v) of a descriptor dump."""
     tok = dump.split()
@@ -378,7 +432,14 @@ def gen_coq(o):
         body.append("Definition dpairs_%d : list dpcase := [%s]." % (c, "; ".join(ch)))
         cn.append("dpairs_%d" % c)
     body.append("Definition dpairs : list dpcase := %s." % " ++ ".join(cn))
-    body.append("Definition ddom_eq : deqdom := mkDEqDom ranks_segv0 ranks_tap dvals dpairs.")
+    wl = ["(%d, %d, %s, %s, (%d, %d))" % (i, j, "true" if WARM[st][0] else "false", "true" if WARM[st][1] else "false", EQC[e], CMPC[c])
+          for (i, j, st, e, c, h) in o["W"].get("desc", [])]
+    cn = []
+    for c, ch in enumerate(chunks(wl, 1500)):
+        body.append("Definition dwpairs_%d : list dwcase := [%s]." % (c, "; ".join(ch)))
+        cn.append("dwpairs_%d" % c)
+    body.append("Definition dwpairs : list dwcase := %s." % " ++ ".join(cn))
+    body.append("Definition ddom_eq : deqdom := mkDEqDom ranks_segv0 ranks_tap dvals dpairs dwpairs.")
     head = ["(* generated by tools/props/c19.py from the output of `verif-harness eqord`; do not edit *)",
             "From Verif Require Import EqOrdRun EqOrdDescRun.", "Local Open Scope N_scope."]
     for h, nm in sorted(used.items(), key=lambda x: x[1]):
@@ -421,8 +482,13 @@ def coq_tie(rep, o, flagged, seed):
         rep.violation("tie:diag", "cases_match_model fails and the diagnosis did not run: " + (c3.stderr or c2.stderr)[-800:],
                       {"property": PID, "broken_tie": "Tables/EqOrdCasesCheck.v"}, False)
         return False, 0
-    pair_diag, stream_diag, spec_diag, desc_diag = val
-    n_desc = len(desc_diag)
+    pair_diag, stream_diag, spec_diag, desc_diag, wdiag = val
+    for (i, j, wl_, wr_) in wdiag:
+        rep.violation("tie:desc-history", "implementation and model disagree on ==/cmp of the descriptors %s | %s with left warmed=%s right warmed=%s" %
+                      (o["V"]["desc"][i][1], o["V"]["desc"][j][1], wl_, wr_),
+                      {"property": PID, "seed": seed, "domain": "desc", "broken_tie": "cases_match_model (descriptors under a cache history)",
+                       "values": {str(i): o["V"]["desc"][i][1], str(j): o["V"]["desc"][j][1]}, "left_warmed": wl_, "right_warmed": wr_}, False)
+    n_desc = len(desc_diag) + len(wdiag)
     for (i, j, impl, coded) in desc_diag:
         if ("desc", i, j) in flagged:
             continue
@@ -488,6 +554,7 @@ def run(rep, tier, seed, replay):
         raise RuntimeError("eqord engine failed: " + p.stderr[-2000:])
     o = parse_output(p.stdout)
     stats, flagged = oracle(rep, o, seed)
+    history_oracle(rep, o, seed, stats)
     tie_ok, ndiff = coq_tie(rep, o, flagged, seed)
 
     kinds, obs_hist, dom_hist = {}, {}, {}
@@ -514,10 +581,11 @@ def run(rep, tier, seed, replay):
         "trusted_base": vlib.TRUSTED_BASE_COMMON + [
             "the canonical dump (harness/src/ast.rs dump_str and the descriptor/policy dumps of eqord.rs) as the structural-equality oracle",
             "Ord/Eq/Hash of the key type DefiniteDescriptorKey (supplied to the model as a rank table; a total order in the theorems)"],
-        "evaluations": stats["pairs"] + stats["triples"] + stats["sets"] + stats["clones"],
+        "evaluations": stats["pairs"] + stats["triples"] + stats["sets"] + stats["clones"] + stats.get("history_cases", 0),
+        "history_cases": stats.get("history_cases", 0),
         "distinct_nontrivial": sum(len(v) for v in o["V"].values()),
         "pairs": stats["pairs"], "triples": stats["triples"], "set_groups": stats["sets"], "clones": stats["clones"],
-        "pairs_compared_in_coq": sum(len(o["P"].get(d, {})) for d in MS_DOMS + ["desc"]),
+        "pairs_compared_in_coq": sum(len(o["P"].get(d, {})) for d in MS_DOMS + ["desc"]) + len(o["W"].get("desc", [])),
         "hash_streams_compared_in_coq": sum(len(o["H"].get(d, {})) for d in MS_DOMS),
         "differing_cases": ndiff,
         "rule": "generated miniscripts (type-directed, 4 contexts, all base types) + every single-step neighbour kind "
@@ -532,5 +600,7 @@ def run(rep, tier, seed, replay):
     })
     rep.assumptions = [
         "two values are structurally identical iff their canonical dumps are equal (the dump visits every field that Display prints)",
-        "descriptors and policies are judged by the oracle and the order laws only (their derived impls are not modelled in Coq)",
+        "policies and descriptor Hash are judged by the oracle and the order laws only (not modelled in Coq)",
+        "the spend-info cache of Tr is modelled as run-time state that ==/cmp do not read; that the compiled code's answers do not depend "
+        "on it (fresh / warmed / cloned operands) is observed per run on every tr pair, in Coq against the model and by the oracle",
         "keys are atoms: the key type's own Eq/Ord/Hash are assumed lawful (total_order hypothesis)"]
